@@ -59,9 +59,11 @@ def cases(seed, tier):
            {"gen": "anchor_symmetric_grid", "seed": 2, "order": 6, "elements": "faces", "features": False, "n_smooth": 0, "cotan": True, "kind": "grid"}]
     out += [{"gen": "ff", "kind": "hinge", "seed": 1927690951, "order": 1, "elements": "vertices", "features": True, "n_smooth": 0, "cotan": False, "max_size": 4},
             {"gen": "ff", "kind": "disk", "seed": 2121862795, "order": 3, "elements": "faces", "features": False, "n_smooth": 1, "cotan": True, "max_size": 4, "keep_ears": True},
-            {"gen": "ff", "kind": "hinge", "seed": 1741156018, "order": 4, "elements": "vertices", "features": True, "n_smooth": 1, "cotan": True, "max_size": 4}]
+            {"gen": "ff", "kind": "hinge", "seed": 1741156018, "order": 4, "elements": "vertices", "features": True, "n_smooth": 1, "cotan": True, "max_size": 4},
+            # crease ending on a straight border, order 2 (K-C18-5)
+            {"gen": "ff", "kind": "hinge", "seed": 1197765174, "order": 2, "elements": "vertices", "features": True, "n_smooth": 0, "cotan": False, "max_size": 7, "keep_ears": False}]
     for i in range(n):
-        kind = ["disk", "disk", "hinge", "closed", "annulus", "disk", "grid"][i % 7]
+        kind = ["disk", "disk", "hinge", "closed", "annulus", "disk", "grid", "polar"][i % 8]
         out.append({"gen": "ff", "kind": kind, "seed": rng.randrange(2 ** 31), "order": [4, 1, 2, 3, 4, 5, 6, 4][(i // 2) % 8],
                     "elements": ["vertices", "faces"][i % 2], "features": kind == "hinge" or (i % 5 == 0),
                     "n_smooth": [0, 0, 1, 3][(i // 3) % 4], "cotan": (i // 4) % 3 != 0, "max_size": 4 if tier == "quick" else 7, "keep_ears": i % 9 == 0})
@@ -85,6 +87,22 @@ def _mesh_for(desc, rng):
         V, F = surfaces.refine_midpoint(V, F, project=False)
         V = surfaces.jitter(np.asarray(V, float), rng, 0.0)
         return np.asarray(V, float), [list(f) for f in F], "hinge"
+    if kind == "polar":
+        # regular polar disc, centre slightly off: the harmonic extension of the border frames decays like r^order towards the centre, so
+        # pre-normalisation magnitudes get very small without vanishing
+        nr, nt = rng.randint(5, 8), rng.choice([24, 32, 40])
+        V = [[1e-3, 2e-3, 0.0]]
+        for r in range(1, nr + 1):
+            for t in range(nt):
+                a_ = 2 * math.pi * t / nt
+                V.append([r / nr * math.cos(a_), r / nr * math.sin(a_), 0.0])
+        F = [[0, 1 + t, 1 + (t + 1) % nt] for t in range(nt)]
+        for r in range(1, nr):
+            for t in range(nt):
+                a0, a1 = 1 + (r - 1) * nt + t, 1 + (r - 1) * nt + (t + 1) % nt
+                b0, b1 = 1 + r * nt + t, 1 + r * nt + (t + 1) % nt
+                F += [[a0, b0, b1], [a0, b1, a1]]
+        return np.array(V, float), F, "polar_disc"
     if kind == "grid":
         z = surfaces.make(rng.randrange(2 ** 31), max_size=desc.get("max_size", 4) + 2, tri_only=True, classes=["grid_tri"], combinators=False, min_faces=18)
         return z["V"], z["F"], "regular_grid"
@@ -375,7 +393,7 @@ def run_case(desc, ctx):
                               total=float(vals2.sum()), chi=a["chi"], order=order2, previous_order=order)
                 return
     # ---------------- (e) invariance under renumbering / face rotation (bordered, deterministic settings)
-    generic = desc["kind"] in ("disk", "annulus", "hinge")
+    generic = desc.get("kind") in ("disk", "annulus", "hinge")
     if not closed and fixed and free and pre is not None and desc["gen"] == "ff" and generic and (desc["n_smooth"] == 0 or attach is not None):
         V2, F2, perm = surfaces.renumber(V, F, rng)
         rot = [rng.randrange(3) for _ in F2]
@@ -430,6 +448,36 @@ def run_case(desc, ctx):
                     if abs(_circ(d1 - d2, period)) > 1e-7:
                         mech = "interior_feature_vertex_constraint_depends_on_ring_start"
                         break
+                if mech == "directions_depend_on_numbering" and order % 2 == 0 and getattr(ff, "smooth_normals", False):
+                    # constrained vertices where the order-th powers of the incident feature directions can cancel: the library adds them one by one and
+                    # skips a term that would bring the sum to zero, so the constraint depends on the order in which the feature edges are met
+                    import itertools
+                    for x in fixed:
+                        if abs(var0[x]) < 1e-8:
+                            continue
+                        y = sorted(ref.nbrs[x])[0]
+                        d1 = cmath.phase(var[x]) / order - ff.conn.transport(x, y)
+                        d2 = cmath.phase(var2[perm[x]]) / order - ff2.conn.transport(perm[x], perm[y])
+                        if abs(_circ(d1 - d2, period)) <= 1e-7:
+                            continue
+                        ps = []
+                        for (a_, b_) in feat_pairs:
+                            if x in (a_, b_):
+                                vx, vy = ff.conn.project(V[b_] - V[a_], x)
+                                z = complex(vx, vy)
+                                ps.append((z / abs(z)) ** order)
+                        outcomes = set()
+                        for pm in itertools.permutations(ps) if len(ps) <= 5 else []:
+                            acc = 0j
+                            for q in pm:
+                                if abs(acc + q) > 1e-10:
+                                    acc += q
+                            if abs(acc) > 1e-8:
+                                acc /= abs(acc)
+                            outcomes.add((round(acc.real, 6), round(acc.imag, 6)))
+                        if len(outcomes) > 1:
+                            mech = "feature_vertex_with_cancelling_feature_directions_depends_on_edge_order"
+                            break
             ctx.violation("invariance", elements, mech, "edge-relative branch angles change under vertex renumbering / face rotation",
                           worst=worst, where=where, order=order, n_smooth=desc["n_smooth"], cotan=desc["cotan"])
             return
